@@ -118,7 +118,7 @@ def gen_history(ctx, rng, tier, faults, force=None):
         elif kind in ('mutate_result', 'mutate_arg'):
             op['ref'] = rng.choice(callish)
             op['how'] = rng.choice(MUT_HOW)
-            op['val'] = rng.choice([7, 0, -1, 1 << 60, 3])
+            op['val'] = rng.choice([7, 5, -1, (1 << 63) | 1, 3])
         elif kind == 'interrupt':
             c = _usable_call(g, ctx, mix if rng.random() < 0.5 else 'geo', rng.choice(bases) if rng.random() < 0.8 else None)
             op.update(c)
@@ -149,7 +149,15 @@ def judge(ctx, spec, out):
         call = {'f': rec['f'], 'a': rec['pre']}
         exp = ctx.oracle(call)
         if exp['outcome'][0] == 'abort' or exp['outcome'] == ['exc', 'MemoryError']:
-            continue                         # runaway size (only via caller mutation); not judged
+            if rec['outcome'][0] == 'abort':
+                break                        # runaway size (only via caller mutation); nothing after it is judged
+            continue
+        if rec['outcome'][0] == 'abort':
+            # the fresh-process call returns within 3M steps, here it ran past 4M
+            return {'op_index': rec['i'], 'op_id': rec['id'], 'op': rec['op'], 'f': rec['f'], 'call_repr': call_repr(call),
+                    'expected': exp['outcome'], 'observed': rec['outcome'], 'kind': 'did-not-return',
+                    'detail': 'did-not-return at op %d: %s needs %d steps in a fresh process, exceeded %d here'
+                              % (rec['i'], call_repr(call), exp['steps'], rec['steps'])}
         base = {'op_index': rec['i'], 'op_id': rec['id'], 'op': rec['op'], 'f': rec['f'], 'call_repr': call_repr(call),
                 'expected': exp['outcome']}
         interrupted = rec['op'] == 'interrupt' and rec['landed']
@@ -162,9 +170,7 @@ def judge(ctx, spec, out):
             else:
                 kind = 'wrong-value'
             base.update({'kind': kind, 'observed': got})
-            base['detail'] = '%s at op %d: %s fresh-process value %s, observed %s' % (
-                kind, rec['i'], base['call_repr'],
-                canon.show(e[1]) if e[0] == 'ok' else e, canon.show(got[1]) if got[0] == 'ok' else got)
+            base['detail'] = '%s at op %d: %s: fresh process vs this history: %s' % (kind, rec['i'], call_repr(call, 90), canon.diff_text(e, got))
             return base
         if rec['post'] != rec['pre']:
             # also when the call raised or was interrupted: a caller's objects are never the library's to edit
